@@ -383,8 +383,11 @@ def staged(rng, base, sid, strategy, vm, debug=1):
         preds1 = [l for l in preds1 if not l.startswith("PRED PRUNE")] + ["PRED PRUNE DEPTHGT 5"]
     lines = list(base["sys"]) + preds1 + [coll, goal1] + list(base["cb"])
     lines.append("RUN %s %s %d %d" % (strategy, vm, debug, FUEL))
-    # stage 2
+    # stage 2 (sometimes with an invariant that is likely to break in the second stage: a staged run that FAILS must
+    # leave the checker rolled back as well)
     lines += ["PRED COLLECT NONE", "PRED GOAL NOEVENTS"]
+    if rng.random() < 0.3:
+        lines.append("PRED INV HISTMAX %d %d" % (rng.randrange(base["nprocs"]), rng.choice([1, 2])))
     crashed = set(l.split()[2] for l in base["cb"] if l.startswith("CB CRASH"))
     if rng.random() < 0.25:
         # a crash in the stage-2 callback: the start states then differ only in what the crashed node had done
